@@ -13,7 +13,7 @@ SPEC = dict(
     level="exploration",
     rule=("cases = grammar-G pattern x reachable boundary state x one of the 2^7 flag on/off sets (cycled "
           "systematically; --tag value drawn from its 6 values) x date offset (same day, later, across "
-          "month/year, earlier); non-trivial+distinct = distinct (pattern shape, flag set, set of parts that "
+          "month/year, earlier); every 7th bracketed case starts from a NON-CANONICAL text the pattern accepts (optional non-calendar groups left out although non-zero); non-trivial+distinct = distinct (pattern shape, flag set, set of parts that "
           "changed, set of parts that were reset, #groups omitted, outcome) tuples"),
     assumptions=[
         "reference model R2 (bvmon/ref.py) encodes the README rules; PEP 440 order from the packaging wheel",
